@@ -5,7 +5,7 @@ from common import *
 import hvgen
 import hvhist
 
-PROP_MODULES = ["HvsrVerif.Props.C05"]
+PROP_MODULES = ["HvsrVerif.Props.C05", "HvsrVerif.Props.C05Cov"]
 BRIDGE_MODULES = ["HvsrVerif.Bridge.C05"]
 
 
